@@ -196,18 +196,25 @@ func (w *c01World) ckpt(seed int) string {
 	w.mu.Lock()
 	n := w.cfg.n
 	w.mu.Unlock()
+	acks := 0
 	for i := 0; i < n; i++ {
-		if !w.releaseAck('r', r.Intn(8), c01GateGrace*2) {
+		if !w.releaseAck('r', r.Intn(8), c01GateGrace) {
 			break
 		}
+		acks++
 	}
-	for i := 0; i < n; i++ {
-		if !w.releaseAck('o', r.Intn(8), c01GateGrace*2) {
+	for i := 0; i < n && acks >= n; i++ {
+		if !w.releaseAck('o', r.Intn(8), c01GateGrace) {
 			break
 		}
+		acks++
 	}
-	w.publish(0, c01GateGrace*2)
-	return w.take()
+	w.publish(0, 300*time.Millisecond)
+	// result token: did every runner and operator acknowledgement of the round arrive (bounded wait)?
+	if acks == 2*n {
+		return w.take() + " done"
+	}
+	return w.take() + " incomplete"
 }
 
 func (w *c01World) tickNoTake() {
@@ -226,15 +233,20 @@ func (w *c01World) tickNoTake() {
 }
 
 func (w *c01World) kill(num int) string {
+	suffix := w.killNoTake(num)
+	return w.take() + suffix
+}
+
+func (w *c01World) killNoTake(num int) string {
 	w.mu.Lock()
 	if num < 0 || num >= len(w.workers) {
 		w.mu.Unlock()
-		return w.take() + " nosuch"
+		return " nosuch"
 	}
 	wk := w.workers[num]
 	if wk.killed.Load() {
 		w.mu.Unlock()
-		return w.take() + " dead"
+		return " dead"
 	}
 	wk.killed.Store(true)
 	w.log("k:%d", num)
@@ -244,7 +256,7 @@ func (w *c01World) kill(num int) string {
 		defer func() { recover() }()
 		wk.w.Halt()
 	}()
-	return w.take()
+	return ""
 }
 
 // the acknowledgements a dead process was about to send are never sent (wk == nil: all of them)
@@ -260,16 +272,39 @@ func (w *c01World) dropAcksLocked(wk *c01Worker) {
 	w.acks = keep
 }
 
-// restart after worker failures (the job stays up)
-func (w *c01World) restart(fail int) string {
-	w.mu.Lock()
-	live := 0
-	for _, wk := range w.workers {
-		if !wk.killed.Load() {
-			live++
+// settle waits (bounded) until the workers that survived a partial failure have stopped themselves: a source
+// runner that cannot reach an operator (at the latest with its next 200 ms watermark) fails, which stops its worker
+func (w *c01World) settle() string {
+	// a survivor whose runner or operator is parked at the acknowledgement gate cannot notice anything: let the
+	// parked acknowledgements through first (each is an ordinary, logged step)
+	for i := 0; i < 8; i++ {
+		if !w.releaseAck('r', 0, 0) && !w.releaseAck('o', 0, 0) {
+			break
 		}
 	}
-	need := w.cfg.n - live
+	deadline := time.Now().Add(2 * time.Second)
+	for {
+		n := len(w.liveWorkers())
+		if n == 0 {
+			return w.take() + " settled"
+		}
+		if time.Now().After(deadline) {
+			return w.take() + fmt.Sprintf(" survivors:%d", n)
+		}
+		time.Sleep(time.Millisecond)
+	}
+}
+
+// restart after worker failures (the job stays up)
+func (w *c01World) restart(fail int, live bool) string {
+	w.mu.Lock()
+	alive := 0
+	for _, wk := range w.workers {
+		if !wk.killed.Load() {
+			alive++
+		}
+	}
+	need := w.cfg.n - alive
 	after := w.dep
 	clk := w.jclk
 	w.failDeploy = fail
@@ -277,11 +312,22 @@ func (w *c01World) restart(fail int) string {
 	if need <= 0 && fail == 0 {
 		// nothing failed: a transient loss of heartbeats still redeploys
 	}
-	for i := 0; i < need; i++ {
-		w.newWorker()
+	if live {
+		// replacements register while the dead workers' heartbeats have not expired yet: the job may put a dead node
+		// into the next assembly, fail to deploy it and deploy the others a second time later
+		for i := 0; i < need; i++ {
+			w.newWorker()
+		}
+		time.Sleep(time.Millisecond)
+		clk.advance((c01Heartbeat + 1) * time.Second)
+	} else {
+		// the dead workers' heartbeats expire first: the first registration purges them
+		clk.advance((c01Heartbeat + 1) * time.Second)
+		for i := 0; i < need; i++ {
+			w.newWorker()
+		}
+		time.Sleep(time.Millisecond)
 	}
-	time.Sleep(time.Millisecond) // the new workers' immediate registration (not needed for correctness)
-	clk.advance((c01Heartbeat + 1) * time.Second)
 	w.heartbeat()
 	ok := w.waitRunning(after)
 	w.mu.Lock()
@@ -332,7 +378,7 @@ func (w *c01World) restartPub(j int) string {
 	res := ""
 	if !parked {
 		res = " noparked"
-	} else if !w.publish(j, c01GateGrace) {
+	} else if !w.publish(j, 400*time.Millisecond) {
 		res = " none"
 	}
 	w.mu.Lock()
@@ -478,7 +524,7 @@ func c01Impl(c lib.Case) []string {
 				o = w.take()
 			}
 		case len(a) == 2 && a[0] == "pub":
-			if !w.publish(atoi(a[1]), c01GateGrace) {
+			if !w.publish(atoi(a[1]), 400*time.Millisecond) {
 				o = w.take() + " none"
 			} else {
 				o = w.take()
@@ -497,8 +543,21 @@ func c01Impl(c lib.Case) []string {
 			o = w.take()
 		case len(a) == 2 && a[0] == "kill":
 			o = w.kill(atoi(a[1]))
-		case len(a) == 2 && a[0] == "restart":
-			o = w.restart(atoi(a[1]))
+		case len(a) == 2 && (a[0] == "restart" || a[0] == "restartlive"):
+			o = w.restart(atoi(a[1]), a[0] == "restartlive" || atoi(a[1]) > 0)
+		case len(a) == 1 && a[0] == "killall":
+			for _, wk := range w.liveWorkers() {
+				w.killNoTake(wk.num)
+			}
+			o = w.take()
+		case len(a) == 2 && a[0] == "killr":
+			if live := w.liveWorkers(); len(live) > 0 {
+				o = w.kill(live[atoi(a[1])%len(live)].num)
+			} else {
+				o = w.take() + " nosuch"
+			}
+		case len(a) == 1 && a[0] == "settle":
+			o = w.settle()
 		case len(a) == 2 && a[0] == "restartpub":
 			o = w.restartPub(atoi(a[1]))
 		case len(a) == 3 && a[0] == "killjob":
@@ -513,7 +572,12 @@ func c01Impl(c lib.Case) []string {
 			w.mu.Unlock()
 			o = w.wait()
 		case len(a) == 1 && a[0] == "end":
-			o = "ok"
+			// stalls are judged at the `wait` / `probe` lines; here both sides only say whether the run ended at rest
+			if w.quiescent() {
+				o = "ok"
+			} else {
+				o = "not-quiescent"
+			}
 		default:
 			o = "bad-op"
 		}
@@ -530,6 +594,10 @@ func c01Impl(c lib.Case) []string {
 				c01Count("published_checkpoints", 1)
 			case strings.HasPrefix(t, "k:"):
 				c01Count("worker_kills", 1)
+			case strings.HasPrefix(t, "x:"):
+				c01Count("workers_that_stopped_themselves", 1)
+			case strings.HasPrefix(t, "survivors:"):
+				c01Count("grace_expired:survivors", 1)
 			case t == "kj":
 				c01Count("job_kills", 1)
 			case t == "NQ" || t == "NOTRUNNING" || t == "none":
@@ -550,9 +618,7 @@ type c01Gen struct {
 	n       int
 	nsplits int
 	nkeys   int
-	workers int // worker numbers handed out so far
-	live    []int
-	multi   bool
+	racy    bool // a recovery whose outcome depends on a race with the survivors' own shutdown was scheduled
 }
 
 func (g *c01Gen) add(s string, a ...any) { g.ops = append(g.ops, fmt.Sprintf(s, a...)) }
@@ -573,18 +639,38 @@ func (g *c01Gen) feeds(lo, hi, max int) {
 	}
 }
 
-// replaceAll: every live worker dies and is replaced (the only recovery shape the pinned code supports, see D34)
-func (g *c01Gen) killAll() {
-	for _, w := range g.live {
-		g.add("kill %d", w)
+// killSome: all workers die, or (two thirds of the time when there are several) a strict subset dies and the
+// survivors stop themselves when their source runner meets the dead operator (fail-fast), so that the job replaces
+// every process; returns false when the survivors may still be alive at the restart
+func (g *c01Gen) killSome() {
+	if g.n >= 2 && g.r.Chance(2, 3) {
+		for k := g.r.Range(1, g.n-1); k > 0; k-- {
+			g.add("killr %d", g.r.Intn(8))
+		}
+		g.add("settle")
+		return
 	}
-	g.live = nil
+	g.add("killall")
 }
 
-func (g *c01Gen) refill() {
-	for len(g.live) < g.n {
-		g.live = append(g.live, g.workers)
-		g.workers++
+// fail: a failure of workers while the job stays up, and the recovery from it
+func (g *c01Gen) fail() {
+	switch {
+	case g.n >= 2 && g.r.Chance(1, 6):
+		// a strict subset dies and the job redeploys at once: survivors that have not stopped themselves yet are
+		// redeployed as live processes (finding D39); a survivor dying during the deployment can make it fail
+		for k := g.r.Range(1, g.n-1); k > 0; k-- {
+			g.add("killr %d", g.r.Intn(8))
+		}
+		g.add("restartlive 0")
+		g.racy = true
+	case g.r.Chance(1, 30):
+		// nobody dies, every heartbeat expires: the job redeploys the same live processes (finding D39)
+		g.add("restartlive 0")
+		g.racy = true
+	default:
+		g.killSome()
+		g.add("restart 0")
 	}
 }
 
@@ -621,11 +707,10 @@ func (g *c01Gen) interruptedRound() {
 	}
 	_ = step
 	// point 4/5: the checkpoint is complete but its publication is still in flight when the failure strikes
-	g.killAll()
+	g.killSome()
 	if point == 5 && g.r.Bool() {
 		g.add("pub 0") // the job (still alive) finishes the publication after the workers died
 	}
-	g.refill()
 	if point == 4 && g.r.Chance(2, 3) {
 		// the publication of the complete checkpoint finishes while the restart is deploying the operators
 		g.add("restartpub 0")
@@ -638,8 +723,8 @@ func (g *c01Gen) interruptedRound() {
 }
 
 func c01Gen1(r *lib.Rng, tier string, idx int) lib.Case {
-	n := lib.Pick(r, []int{1, 1, 2, 2, 3})
-	kgc := lib.Pick(r, []int{2, 4, 8, 8, 16, 256})
+	n := lib.Pick(r, []int{1, 1, 2, 2, 2, 3, 3, 4})
+	kgc := lib.Pick(r, []int{2, 4, 6, 8, 10, 16, 256})
 	if kgc < n {
 		kgc = n
 	}
@@ -647,15 +732,18 @@ func c01Gen1(r *lib.Rng, tier string, idx int) lib.Case {
 	nkeys := r.Range(1, 6)
 	batch := r.Range(1, 4)
 	readBatch := r.Range(1, 3)
-	// rot > 0 seals the operator's memtable every rot-th handler batch, so that state also lives in sstables.
-	// Kept at 0 for generated cases: at thorough scale the cluster then trips over the deletion of table files that a
-	// restored operator still references (C09 findings D24/D25: "panic: file not found" in sst.Table.loadFooter inside
-	// the operator's event loop, which takes the whole in-process cluster down). Re-enable when those are repaired.
+	// rot > 0 seals the operator's memtable every rot-th handler batch, so that the keyed state also lives in
+	// sstables (flush/compaction under the cluster, restores through checkpoints that reference tables). Two fixed
+	// cases run with it on every check. Generated cases keep rot = 0 unless C01_ROT is set: about one cluster run in
+	// several hundred then dies with "panic: file not found" in sst.Table.loadFooter inside an operator's event loop
+	// (open finding D25 of C09: a table file is deleted although a restored operator still references it), and a
+	// panic in that goroutine takes the whole in-process cluster, i.e. the check, down.
 	rot := 0
-	_ = r.Intn(6)
+	if pick := lib.Pick(r, []int{0, 0, 1, 2, 3, 5}); os.Getenv("C01_ROT") != "" {
+		rot = pick
+	}
 	g := &c01Gen{r: r, n: n, nsplits: nsplits, nkeys: nkeys}
 	g.add("boot")
-	g.refill()
 	rounds := r.Range(2, 5)
 	if tier == "thorough" {
 		rounds = r.Range(2, 7)
@@ -672,18 +760,14 @@ func c01Gen1(r *lib.Rng, tier string, idx int) lib.Case {
 			if r.Bool() {
 				g.add("wait")
 			}
-			g.killAll()
-			g.refill()
-			g.add("restart 0")
+			g.fail()
 		case 3, 4, 5:
 			g.interruptedRound()
 		case 6: // two checkpoints back to back, failure before anything else
 			g.add("ckpt %d", r.Intn(1000))
 			g.feeds(0, 2, 5)
 			g.add("ckpt %d", r.Intn(1000))
-			g.killAll()
-			g.refill()
-			g.add("restart 0")
+			g.fail()
 		case 7: // the job process dies (with every worker), possibly between completion and publication
 			g.add("ckpt %d", r.Intn(1000))
 			g.feeds(0, 2, 5)
@@ -696,22 +780,24 @@ func c01Gen1(r *lib.Rng, tier string, idx int) lib.Case {
 					g.add("oack %d", r.Intn(4))
 				}
 			}
-			g.live = nil
+			if r.Chance(1, 5) {
+				// the live workers re-register with the new job and are redeployed as live processes (finding D39)
+				g.add("killjob %d 0", g.n)
+				g.racy = true
+				break
+			}
 			if r.Chance(1, 2) { // the new job runs with a different worker count: state is repartitioned
-				g.n = lib.Pick(r, []int{1, 2, 3})
+				g.n = lib.Pick(r, []int{1, 2, 3, 4})
 				if g.n > kgc {
 					g.n = kgc
 				}
 			}
 			g.add("killjob %d 1", g.n)
-			g.refill()
 		case 8: // failure with no checkpoint since the last restart
 			if r.Bool() {
 				g.add("wait")
 			}
-			g.killAll()
-			g.refill()
-			g.add("restart 0")
+			g.fail()
 		case 9: // failure-free rounds; the publication of the first is still in flight when the second completes
 			if r.Bool() {
 				g.add("ckpt %d", r.Intn(1000))
@@ -730,12 +816,15 @@ func c01Gen1(r *lib.Rng, tier string, idx int) lib.Case {
 				g.add("pub %d", r.Intn(2))
 				g.add("pub 0")
 				if r.Bool() {
-					g.killAll()
-					g.refill()
-					g.add("restart 0")
+					g.fail()
 				}
 			}
 		}
+	}
+	if g.racy || r.Chance(1, 3) {
+		// end on fresh processes, whatever the racy recoveries above left behind
+		g.add("killall")
+		g.add("restart 0")
 	}
 	g.feeds(0, 2, 5)
 	g.add("wait")
@@ -761,6 +850,10 @@ func c01Fixed() []lib.Case {
 	}
 }
 
+var c01RotOps = []string{"boot", "feed 0 0,1,2,3,0,1,2,3,0,1", "feed 1 3,2,1,0,1,2", "wait", "ckpt 1", "feed 0 1,2,3,0", "feed 1 0,0,1", "wait",
+	"ckpt 2", "feed 0 0,1,1,1", "wait", "kill 0", "kill 1", "restart 0", "feed 1 2,3,2,3", "wait", "ckpt 3", "killjob 3 1", "feed 0 0,1,2,3",
+	"wait", "ckpt 4", "feed 0 0,1", "wait", "killjob 1 1", "feed 1 0,1,2,3", "wait", "probe", "end"}
+
 // regression schedules of repaired defects and, when it is listed as open, the witness of finding D39
 func c01Regressions() []lib.Case {
 	cases := []lib.Case{
@@ -785,6 +878,19 @@ func c01Regressions() []lib.Case {
 			"oack 0", "oack 0", "kill 0", "kill 1", "restartpub 0", "wait", "feed 0 3", "wait", "kill 2", "kill 3", "restart 0", "wait", "probe", "end"}},
 		{Header: c01Header(1, 8, 1, 1, 1, 2, 0), Tags: []string{"publish-during-deploy"}, Ops: []string{
 			"boot", "feed 0 0,1,0,1", "wait", "tick", "rack 0", "oack 0", "kill 0", "restartpub 0", "wait", "probe", "end"}},
+		// 4 workers over 6 and over 10 key groups: the remainder-first range layout differs from proportional
+		// rounding (key k3 lies in group 3 of 6, keys k4 and k18 in group 5 of 10); the runner must route each key to the
+		// operator that owns its state, before and after a recovery
+		{Header: c01Header(4, 6, 2, 2, 2, 6, 0), Tags: []string{"routing"}, Ops: []string{
+			"boot", "feed 0 0,1,2,3,4,5,3,3", "feed 1 5,4,3,2,1,0", "wait", "ckpt 1", "feed 0 3,2,3", "wait", "killall", "restart 0", "feed 1 3,3,1",
+			"wait", "probe", "end"}},
+		{Header: c01Header(4, 10, 2, 2, 2, 19, 0), Tags: []string{"routing"}, Ops: []string{
+			"boot", "feed 0 4,18,0,1,4", "feed 1 18,4,2,3", "wait", "ckpt 1", "feed 0 4,18", "wait", "killall", "restart 0", "feed 1 4,18,5",
+			"wait", "probe", "end"}},
+		// small memtables (sealed every 2nd / every handler batch): the checkpoints the restores go through reference
+		// sstables; worker restart, scale out 2 → 3, scale in 3 → 1
+		{Header: c01Header(2, 8, 2, 2, 2, 4, 2), Tags: []string{"sstables"}, Ops: c01RotOps},
+		{Header: c01Header(2, 8, 2, 1, 2, 4, 1), Tags: []string{"sstables"}, Ops: c01RotOps},
 		// rescale 2 → 3 → 1 → 2 through job restarts
 		{Header: c01Header(2, 8, 3, 2, 2, 5, 0), Tags: []string{"rescale"}, Ops: []string{
 			"boot", "feed 0 0,1,2,3,4,0,1", "feed 1 4,3,2,1,0", "feed 2 2,2,3,3", "wait", "ckpt 3", "feed 0 1,1", "feed 1 2,2", "wait",
